@@ -869,7 +869,13 @@ func runChain(t *rapid.T, rec *ev.Rec) {
 		for ci := 0; ci < nCand; ci++ {
 			cands = append(cands, e.genCandidate(t))
 		}
-		rank := func(c *cand) int { v, _ := e.expect(c, committeeAt); return map[verdict]int{mustReject: 0, either: 1, mustCommit: 2}[v] }
+		if e.height > 1 && !e.cached {
+			cands = append(cands, e.genLastQC(t)) // the inner last-certificate re-check is reachable here: always try it
+		}
+		rank := func(c *cand) int {
+			v, _ := e.expect(c, committeeAt)
+			return map[verdict]int{mustReject: 0, either: 1, mustCommit: 2}[v]
+		}
 		sort.SliceStable(cands, func(i, j int) bool { return rank(cands[i]) < rank(cands[j]) })
 		afterCommit := 0
 		for ci, c := range cands {
